@@ -64,6 +64,9 @@ def r1_inventory(run, F):
             run.ob("R1-PANIC-SITE", key, False, where, "unreviewed panicking site reachable from the compiler pipeline (%s)" % kind)
         elif rv["reason"].startswith("FINDING"):
             run.ob("R1-PANIC-SITE", key, False, where, rv["reason"])
+            if len(lines) > rv["count"]:
+                run.ob("R1-PANIC-SITE", key + "|more sites than recorded", False, where,
+                       "%d sites share this key, the recorded finding covers %d: a new panicking site was added" % (len(lines), rv["count"]))
         else:
             run.ob("R1-PANIC-SITE", key, len(lines) <= rv["count"], where,
                    "%d sites, %d reviewed (%s)" % (len(lines), rv["count"], rv["reason"][:150]), sample={"key": key, "lines": lines, "reason": rv["reason"]})
